@@ -627,18 +627,32 @@ def _c04_worker(args):
                 # bits, so this one run is made as `nobody`): the listing is incomplete, and exit status 0 would claim
                 # a mirror that was never made
                 unreadable = rng.pick(subdirs)
+                # ... or, in half of these runs, ONE planned source file is unreadable instead: it cannot be delivered,
+                # so exit status 0 would claim a file that never arrived (a scan that skips what it cannot read)
+                plain_planned = sorted(p for p in transfer if re.fullmatch(r"[A-Za-z0-9._/-]+", p))
+                if plain_planned and SplitMix.derive(rng.s, "unreadable-file", 0).chance(1, 2):
+                    unreadable = SplitMix.derive(rng.s, "unreadable-file", 1).pick(plain_planned)
+                    label["unreadable_source_file"] = unreadable
+                    cnt("runs_as_nobody_with_an_unreadable_source_file")
                 subprocess.run(["chown", "-R", "65534:65534", ow.root], capture_output=True)
                 # (chown touches every ctime: the "before" snapshots are taken again, as root, before the mode change)
                 srcm, src0 = ow.meta("src")
                 dstm, dst0 = ow.meta("dst")
                 out0 = outside_snapshot(ow)
+                is_dir = os.path.isdir(os.path.join(ow.src, unreadable))
                 os.chmod(os.path.join(ow.src, unreadable), 0)
-                label["unlistable_source_directory"] = unreadable
-                cnt("runs_as_nobody_with_an_unlistable_source_directory")
+                if not is_dir:
+                    # (the mode change moved the file's ctime: the "before" snapshot of the source is taken once more,
+                    # as root; the mode is left as it is until the scratch tree is removed)
+                    _, src0 = ow.meta("src")
+                if is_dir:
+                    label["unlistable_source_directory"] = unreadable
+                    cnt("runs_as_nobody_with_an_unlistable_source_directory")
                 env_n = ow.env()
                 env_n = shim_env(env_n, log=trace)
                 r = run(["--reuid=65534", "--regid=65534", "--clear-groups", COPIA] + ow.argv(), env_n, cwd=ow.home, timeout=90, copia="setpriv")
-                os.chmod(os.path.join(ow.src, unreadable), 0o755)
+                if is_dir:
+                    os.chmod(os.path.join(ow.src, unreadable), 0o755)
             else:
                 r = run_case(ow, trace=trace, delay=delay, fail=fail, env_extra={"SSH_STANDIN_FAULT": sshfault} if sshfault else None)
             if r.timed_out:
